@@ -143,6 +143,23 @@ fn main() {
             });
             ctx.finish(false);
         }
+        if case["family"].as_str() == Some("signer-knobs") {
+            let lab = |v: &serde_json::Value| -> Labels { v.as_array().map(|a| a.iter().map(|x| vcore::hex::dec(x.as_str().unwrap_or("")).unwrap_or_default()).collect()).unwrap_or_default() };
+            let k = keys.iter().find(|k| Some(k.name) == case["key"].as_str()).unwrap_or(&keys[0]);
+            ctx.with_local(|l| {
+                crypto::run_signer_knob_case(
+                    k,
+                    case["inception"].as_u64().unwrap_or(0) as u32,
+                    case["duration"].as_u64().unwrap_or(0) as u32,
+                    &lab(&case["signer"]),
+                    case["set_ttl"].as_u64().unwrap_or(0) as u32,
+                    case["record_ttl"].as_u64().unwrap_or(0) as u32,
+                    &lab(&case["owner"]),
+                    l,
+                )
+            });
+            ctx.finish(false);
+        }
         let c = Case::from_json(&case);
         let hr: Result<Vec<RData>, String> = c.rdatas.iter().map(|r| tbs::hrdata(c.p.type_covered, r)).collect();
         let hr = hr.unwrap_or_else(|e| vcore::machinery_exit(&format!("replay: RDATA does not decode: {e}")));
@@ -151,7 +168,11 @@ fn main() {
                 let k = keys.iter().find(|k| Some(k.name) == case["key"].as_str()).unwrap_or(&keys[0]);
                 crypto::run_crypto_case(&c, &hr, k, l);
             } else {
-                tbs::run_tbs_case(&c, &hr, l);
+                if c.from_message {
+                    tbs::run_tbs_case_from_message(&c, l);
+                } else {
+                    tbs::run_tbs_case(&c, &hr, l);
+                }
             }
         });
         ctx.finish(false);
@@ -177,6 +198,13 @@ fn main() {
          signed data must not change; permutation family: the type's whole alphabet plus exact duplicates (7, thorough 8 records) in EVERY order with equal \
          and descending TTLs; key tag family: DNSKEY RDATA = 5 flag values x 9 algorithms x 25 key lengths (0..4097, odd and even) x 6 fill patterns \
          (zeros, 0xff, leading zeros, RSA with zero-padded modulus, ...) decoded and constructed, against RFC 4034 Appendix B. \
+         Audit round: message-input family (records decoded by ONE decoder from a message with pointer owners and, for RFC 1035 types, compressed RDATA names: \
+         shapes of <= 2 (thorough 3) records x 4 owners x TTL pattern x 2 tuples); field sweeps (algorithm 0..255, Labels 0..255, original TTL / expiration / \
+         inception / key tag at integer-width boundaries on A and NS sets; 11 class values x every type); large family (2..1000 A records at a 255-octet owner, one \
+         opaque RDATA of up to 65,535 octets: equality judged while the signed data fits 65,535 octets, rejections above are observations); signer configuration \
+         family (5 keys x 4 inceptions x 5 durations x 4 signer names x 4 (RRset TTL, record TTL) x 3 owners; RSA keys on a deterministic 1/7 diagonal in quick): \
+         RRSIG fields, the RRSIG RDATA on the wire parsed by the reference (uncompressed signer, case kept) and verified with ring from those octets; SIG(24); \
+         thorough: the obsolete RFC 4034-list types without typed RDATA (MD MF MB MG MR MINFO RT PX NXT A6) as observations. \
          Non-trivial = distinct cases with >= 2 records whose input order is not the canonical duplicate-free \
          order, or with embedded names, and every deviating case.",
     );
@@ -242,6 +270,8 @@ fn main() {
                 ttls: ttl_pattern(d[3], seq.len()),
                 p,
                 foreign: vec![],
+                from_message: false,
+                observe_only: !pr.alpha.judged,
             };
             for labels in 0..=(owner.len() as u8 + 1) {
                 c.p.labels = labels;
@@ -291,6 +321,8 @@ fn main() {
                     ttls: vec![300; seq.len()],
                     p,
                     foreign: vec![],
+                from_message: false,
+                observe_only: !pr.alpha.judged,
                 };
                 for f in &kinds {
                     for pos in 0..=seq.len() {
@@ -318,6 +350,174 @@ fn main() {
         ctx.set("filter_base_cases", json!(fcases));
     }
     ctx.set("wall_after_filter_s", json!(ctx.elapsed_s()));
+
+    // ------------------------------------------------------------------ message-input family
+    // the records as a validator gets them: decoded by one decoder from a buffer in which the owner
+    // is a pointer and the names inside RFC 1035 RDATA are compressed against everything before
+    {
+        let mlen = if thorough { 3 } else { 2 };
+        let mowners: Vec<(Labels, u8)> = vec![(nm("a.z"), 2), (nm("A.Z"), 2), (nm("x.y.z"), 1), (nm("z"), 1)];
+        let mut mcases = 0u64;
+        for pr in &prepared {
+            let seqs: Vec<&Vec<usize>> = pr.seqs.iter().filter(|s| s.len() <= mlen).collect();
+            let od = Odometer::new(&[seqs.len() as u64, mowners.len() as u64, 2, 2]);
+            mcases += od.space();
+            ctx.par_run(od.space(), 32, |i, l| {
+                let d = od.get(i);
+                let seq = seqs[d[0] as usize];
+                let (owner, labels) = &mowners[d[1] as usize];
+                let mut p = tuples[d[3] as usize].clone();
+                p.type_covered = pr.alpha.code;
+                p.labels = *labels;
+                let c = Case {
+                    tname: pr.alpha.name.to_string(),
+                    owner: owner.clone(),
+                    rec_owner: swap_case(owner),
+                    class: 1,
+                    rdatas: seq.iter().map(|&k| pr.alpha.values[k].clone()).collect(),
+                    ttls: ttl_pattern(d[2], seq.len()),
+                    p,
+                    foreign: vec![],
+                    from_message: true,
+                    observe_only: !pr.alpha.judged,
+                };
+                tbs::run_tbs_case_from_message(&c, l);
+                if i % 7001 == 5 {
+                    l.sample(c.to_json());
+                }
+            });
+        }
+        ctx.set("message_input_cases", json!(mcases));
+    }
+
+    // ------------------------------------------------------------------ field sweep family
+    // every RRSIG field that feeds the signed data, one at a time over its whole range (8-bit
+    // fields) or its integer-width boundaries; every class value of interest x every type
+    {
+        let mk = |pr: &Prepared, seq: &[usize], p: SigParams, class: u16| -> (Case, Vec<RData>) {
+            let owner = nm("X.y.z");
+            (
+                Case {
+                    tname: pr.alpha.name.to_string(),
+                    owner: owner.clone(),
+                    rec_owner: owner,
+                    class,
+                    rdatas: seq.iter().map(|&k| pr.alpha.values[k].clone()).collect(),
+                    ttls: vec![300; seq.len()],
+                    p,
+                    foreign: vec![],
+                    from_message: false,
+                observe_only: !pr.alpha.judged,
+                },
+                seq.iter().map(|&k| pr.hr[k].clone()).collect(),
+            )
+        };
+        let b32: [u32; 8] = [0, 1, 0x7fff_ffff, 0x8000_0000, 0x8000_0001, 0xffff_fffe, 0xffff_ffff, 0x0100_0000];
+        let b16: [u16; 8] = [0, 1, 0xff, 0x100, 0x7fff, 0x8000, 0xfffe, 0xffff];
+        let classes_all: [u16; 11] = [0, 1, 2, 3, 4, 254, 255, 256, 0xfedc, 0xfffe, 0xffff];
+        let sweeps = ctx.with_local(|l| {
+            let mut n = 0u64;
+            for pr in prepared.iter().filter(|p| p.alpha.name == "A" || p.alpha.name == "NS") {
+                let seq: Vec<usize> = vec![1, 0];
+                let mut base = tuples[0].clone();
+                base.type_covered = pr.alpha.code;
+                base.labels = 3;
+                for v in 0..=255u8 {
+                    let (c, hr) = mk(pr, &seq, SigParams { algorithm: v, ..base.clone() }, 1);
+                    tbs::run_tbs_case(&c, &hr, l);
+                    let (c, hr) = mk(pr, &seq, SigParams { labels: v, ..base.clone() }, 1);
+                    tbs::run_tbs_case(&c, &hr, l);
+                    n += 2;
+                }
+                for v in b32 {
+                    for f in 0..3 {
+                        let p = match f {
+                            0 => SigParams { original_ttl: v, ..base.clone() },
+                            1 => SigParams { expiration: v, ..base.clone() },
+                            _ => SigParams { inception: v, ..base.clone() },
+                        };
+                        let (c, hr) = mk(pr, &seq, p, 1);
+                        tbs::run_tbs_case(&c, &hr, l);
+                        n += 1;
+                    }
+                }
+                for v in b16 {
+                    let (c, hr) = mk(pr, &seq, SigParams { key_tag: v, ..base.clone() }, 1);
+                    tbs::run_tbs_case(&c, &hr, l);
+                    n += 1;
+                }
+            }
+            for pr in &prepared {
+                let mut base = tuples[0].clone();
+                base.type_covered = pr.alpha.code;
+                base.labels = 3;
+                for class in classes_all {
+                    let (c, hr) = mk(pr, &[0], base.clone(), class);
+                    tbs::run_tbs_case(&c, &hr, l);
+                    l.outcome("sweep:class-x-type");
+                    n += 1;
+                }
+            }
+            n
+        });
+        ctx.set("field_sweep_cases", json!(sweeps));
+    }
+
+    // ------------------------------------------------------------------ large family
+    // signed data near and above 65,535 octets: many A records at a 255-octet owner name, one
+    // opaque record with RDATA up to 65,535 octets
+    {
+        let a = prepared.iter().find(|p| p.alpha.name == "A").expect("A alphabet");
+        let opaque = prepared.iter().find(|p| p.alpha.code == 65280).expect("opaque alphabet");
+        let long_owner: Labels = vec![vec![b'o'; 63], vec![b'P'; 63], vec![b'q'; 63], vec![b'r'; 61]];
+        let counts: Vec<usize> = if thorough { vec![2, 100, 200, 242, 243, 244, 245, 300, 1000] } else { vec![2, 243, 244, 300] };
+        let lens: Vec<usize> = if thorough { vec![1000, 60000, 65498, 65499, 65500, 65501, 65534, 65535] } else { vec![60000, 65499, 65500, 65535] };
+        ctx.par_run((counts.len() + lens.len()) as u64, 1, |i, l| {
+            let i = i as usize;
+            let mut p = tuples[0].clone();
+            let c = if i < counts.len() {
+                p.type_covered = a.alpha.code;
+                p.labels = 4;
+                let n = counts[i];
+                Case {
+                    tname: "A".into(),
+                    owner: long_owner.clone(),
+                    rec_owner: long_owner.clone(),
+                    class: 1,
+                    rdatas: (0..n).rev().map(|k| vec![Field::Bytes(vec![10, (k >> 16) as u8, (k >> 8) as u8, k as u8])]).collect(),
+                    ttls: vec![300; n],
+                    p,
+                    foreign: vec![],
+                    from_message: false,
+                observe_only: false,
+                }
+            } else {
+                p.type_covered = opaque.alpha.code;
+                p.labels = 2;
+                let n = lens[i - counts.len()];
+                Case {
+                    tname: opaque.alpha.name.to_string(),
+                    owner: nm("a.z"),
+                    rec_owner: nm("a.z"),
+                    class: 1,
+                    rdatas: vec![vec![Field::Bytes((0..n).map(|k| (k % 251) as u8).collect())]],
+                    ttls: vec![300],
+                    p,
+                    foreign: vec![],
+                    from_message: false,
+                observe_only: false,
+                }
+            };
+            let hr: Result<Vec<RData>, String> = c.rdatas.iter().map(|r| tbs::hrdata(c.p.type_covered, r)).collect();
+            match hr {
+                Ok(hr) => {
+                    tbs::run_tbs_case(&c, &hr, l);
+                }
+                Err(_) => l.outcome("obs:large:rdata-does-not-decode"),
+            }
+        });
+    }
+    ctx.set("wall_after_sweeps_s", json!(ctx.elapsed_s()));
 
     // ------------------------------------------------------------------ permutation family
     // larger RRsets: the whole alphabet of the type plus exact duplicates, up to 7 (thorough 8)
@@ -351,6 +551,8 @@ fn main() {
                     ttls: ttl_pattern(0, seq.len()),
                     p,
                     foreign: vec![],
+                from_message: false,
+                observe_only: !pr.alpha.judged,
                 };
                 tbs::run_tbs_case(&c, &hr, l);
                 c.ttls = ttl_pattern(1, seq.len());
@@ -404,6 +606,8 @@ fn main() {
                     ttls: vec![3600; seq.len()],
                     p,
                     foreign: vec![],
+                from_message: false,
+                observe_only: !pr.alpha.judged,
                 };
                 crypto::run_crypto_case(&c, &hr, key, l);
                 if seq.len() == 1 {
@@ -446,6 +650,27 @@ fn main() {
         }
     }
 
+    // ------------------------------------------------------------------ signer configuration family
+    {
+        let incs: [u32; 4] = [0, 1_700_000_000, 0x7fff_ffff, 0xffff_fff0];
+        let durs: [u32; 5] = [0, 1, 86_400, 0x7fff_ffff, 0xffff_ffff];
+        let signers: Vec<Labels> = vec![nm("z"), nm("Z"), vec![], vec![b"S.x".to_vec(), vec![0x00, 0xc0], b"Z".to_vec()]];
+        let ttls: [(u32, u32); 4] = [(3600, 3600), (7200, 3600), (0, 300), (0xffff_ffff, 1)];
+        let kowners: Vec<Labels> = vec![nm("a.z"), nm("*.Z"), vec![]];
+        let od = Odometer::new(&[keys.len() as u64, incs.len() as u64, durs.len() as u64, signers.len() as u64, ttls.len() as u64, kowners.len() as u64]);
+        // RSA signing is ~1 ms: the full product for the EC/Ed keys, a diagonal for the two RSA keys
+        ctx.set("signer_knob_cases", json!(od.space()));
+        ctx.par_run(od.space(), 8, |i, l| {
+            let d = od.get(i);
+            let key = &keys[d[0] as usize];
+            if key.code <= 10 && !thorough && (d[1] + d[2] + d[3] + d[4] + d[5]) % 7 != 0 {
+                return;
+            }
+            let (st, rt) = ttls[d[4] as usize];
+            crypto::run_signer_knob_case(key, incs[d[1] as usize], durs[d[2] as usize], &signers[d[3] as usize], st, rt, &kowners[d[5] as usize], l);
+        });
+    }
+
     // ------------------------------------------------------------------ vacuity guards
     let mut need: Vec<String> = vec![
         "tbs:equal".into(),
@@ -453,6 +678,9 @@ fn main() {
         "tbs:labels-exceed-owner:rejected".into(),
         "tbs:equal:foreign-records-ignored".into(),
         "perm:case-pair".into(),
+        "tbs:equal:records-decoded-from-compressed-message".into(),
+        "sweep:class-x-type".into(),
+        "tbs:equal:signed-data-above-60000-octets".into(),
         "keytag:equal".into(),
         "keytag:equal:odd-length-rdata".into(),
     ];
@@ -460,6 +688,7 @@ fn main() {
         need.push(format!("refsigned:verified:{}", k.name));
         need.push(format!("selfsign:verified:{}", k.name));
         need.push(format!("selfsign:third-party-verifies:{}", k.name));
+        need.push(format!("signer-knobs:third-party-verifies-from-wire:{}", k.name));
     }
     for class in need {
         if ctx.outcome_count(&class) == 0 {
